@@ -85,7 +85,9 @@ pub fn run(k: &str, c: &Value) -> Value {
             mesh.transform(&t);
             let m1 = mesh.surf_closest_to(&tq);
             // distances 2d <-> 3d
-            let d2 = Distance2::new(Point2::new(q.x, q.y), Point2::new(pts[0].x, pts[0].y), None);
+            // an explicit (oblique, possibly opposing) measuring direction, or the default a -> b
+            let dir2 = if c["dir2"].is_null() { None } else { Some(UnitVec2::new_normalize(v2(&c["dir2"]))) };
+            let d2 = Distance2::new(Point2::new(q.x, q.y), Point2::new(pts[0].x, pts[0].y), dir2);
             let d3 = d2.to_3d(&t);
             let d2b = d3.to_2d(&t.inverse());
             json!({"iso": iso3v(&t), "iso2": iso3v(&u), "tq": hp3(&tq),
@@ -97,7 +99,7 @@ pub fn run(k: &str, c: &Value) -> Value {
                              "back": cloud.points().iter().map(hp3).collect::<Vec<_>>(), "seq": seq.points().iter().map(hp3).collect::<Vec<_>>(),
                              "comp": comp.points().iter().map(hp3).collect::<Vec<_>>(), "vec": vecs.iter().map(hp3).collect::<Vec<_>>()},
                    "mesh": {"p0": hp3(&m0.point), "n0": hv3(&m0.normal.into_inner()), "p1": hp3(&m1.point), "n1": hv3(&m1.normal.into_inner())},
-                   "dist": {"v2": hx(d2.value()), "v3": hx(d3.value()), "v2b": hx(d2b.value()), "a3": hp3(&d3.a), "b3": hp3(&d3.b)}})
+                   "dist": {"dir2": hv2(&d2.direction.into_inner()), "dir3": hv3(&d3.direction.into_inner()), "v2": hx(d2.value()), "v3": hx(d3.value()), "v2b": hx(d2b.value()), "a3": hp3(&d3.a), "b3": hp3(&d3.b)}})
         }
         _ => json!({"unknown": k}),
     }
